@@ -229,10 +229,13 @@ func shapes(maxN int) [][]int {
 // genExhaustive: every cut set of every short stream; the remaining dimensions (direction,
 // compressed flags, encoding, END_STREAM placement) rotate pseudo-randomly over the cut sets,
 // `variants` draws per cut set.
-func genExhaustive(r *core.Rand, maxN, variants int, emit func([]string)) {
+func genExhaustive(r *core.Rand, minN, maxN, variants int, emit func([]string)) {
 	nEmptyEOS := 0
 	// the stream without any message: END_STREAM only
 	for _, dir := range []string{"c", "s"} {
+		if minN > 0 {
+			break
+		}
 		for _, eos := range []string{"empty", "trailers"} {
 			for _, enc := range encs {
 				emit(buildCase(r, eos == "empty" && enc == "gzip", dirSpec{dir: dir, enc: enc, hdrs: grpcHdrs(dir, enc, false), frames: nil, eos: eos}))
@@ -243,6 +246,9 @@ func genExhaustive(r *core.Rand, maxN, variants int, emit func([]string)) {
 		n := 0
 		for _, l := range sh {
 			n += 5 + l
+		}
+		if n < minN {
+			continue
 		}
 		core.Count(fmt.Sprintf("exhaustive:streams:n=%02d", n))
 		for mask := uint64(0); mask < 1<<uint(n-1); mask++ {
@@ -495,7 +501,8 @@ func genMalformed(r *core.Rand, cases int, emit func([]string)) {
 
 func (P) Gen(r *core.Rand, tier string, emit func([]string)) {
 	if tier == "thorough" {
-		genExhaustive(r.Fork(), 14, 4, emit)
+		genExhaustive(r.Fork(), 0, 14, 4, emit)
+		genExhaustive(r.Fork(), 15, 15, 1, emit) // includes the three-message stream
 		genMedium(r.Fork(), 48, 40, true, 40, emit)
 		genRandom(r.Fork(), 3000, 4, 300, emit)
 		genRandom(r.Fork(), 150, 3, 70000, emit)
@@ -503,7 +510,7 @@ func (P) Gen(r *core.Rand, tier string, emit func([]string)) {
 		genMalformed(r.Fork(), 3000, emit)
 		return
 	}
-	genExhaustive(r.Fork(), 13, 1, emit)
+	genExhaustive(r.Fork(), 0, 13, 1, emit)
 	genMedium(r.Fork(), 24, 24, false, 8, emit)
 	genRandom(r.Fork(), 800, 4, 300, emit)
 	genRandom(r.Fork(), 16, 2, 70000, emit)
